@@ -13,7 +13,7 @@ func init() {
 			"log/attribution clause: that every allocation and release produces a log record sufficient to map (public address, port, time) to one subscriber is NOT decided. Logger.LogAllocation/LogDeallocation are trusted frames only; no ghost log is modelled. Observed by reading (not verified): no record when natLogger == nil or Logger.enabled == false; non-bulk records carry only PortStart (no PortEnd/block size); LogDeallocation records carry no subscriber id and no PortEnd; records are buffered in memory before being written",
 			"'same public address' is approximated by 'same pool index'; two pool entries with the same address are not excluded by any invariant (AddPublicIP does not deduplicate: refuted by replay)",
 			"kernel-side state (subscriber_nat map contents) is outside the Go heap model",
-			"invariant pcnt (0 <= Subscribers <= MaxSubscribers) at DeallocateNAT's poolMu.Unlock needs a counting argument across allocationMu and poolMu (ghost state); not provable with per-mutex invariants; believed to hold",
+			"invariant pcnt (0 <= Subscribers <= MaxSubscribers) at DeallocateNAT's poolMu.Unlock is locally provable only with the optional guard `Subscribers > 0` (fix_6); without it it needs a counting argument across allocationMu and poolMu (ghost state) and stays undecided",
 			"subscriber id uniqueness beyond 2^32-2 distinct private addresses (uint32 counter wrap)",
 		},
 		Assumptions: []string{
@@ -26,6 +26,6 @@ func init() {
 			"nat.Logger.LogAllocation / LogDeallocation modify only Logger fields (buffer, portBlockBuffer, currentFile, currentSize); bodies not verified",
 			"zap logger calls, net.IP.To4/String, time.Now/Since: no effect on modelled state",
 		},
-		Explanation: "Lock invariants over `allocations`: every block lies inside [portRangeStart, portRangeEnd] with exactly portsPerSubscriber ports (ablk, uint16 conversions exact), two different keys with the same pool index hold disjoint ranges (adisj); over `pool`: MaxSubscribers*portsPerSubscriber fits the range (pmax), 0 <= Subscribers <= MaxSubscribers (pcnt); over the id table: ids are pairwise different and below the counter. Postconditions of AllocateNAT: stable path returns the stored allocation; allocating path adds a key that was absent at the insertion point and leaves every other entry unchanged. Proved: range/size of every block for every configuration satisfying natCfgOK, capacity bookkeeping in AddPublicIP/AllocateNAT, id stability and uniqueness below the wrap. Failing (genuine, with replays): adisj cannot be preserved by AllocateNAT (block start derived from the subscriber COUNT: release from the middle then allocate overlaps a live block), NewManager does not establish natCfgOK (unvalidated configuration: uint16 overflow puts blocks outside the range), check-then-act between the RLock'ed existence check and the insertion (a concurrent AllocateNAT for the same address overwrites the entry: the first caller's block is no longer recorded and stays counted).",
+		Explanation: "Lock invariants over `allocations`: every block lies inside [portRangeStart, portRangeEnd] with exactly portsPerSubscriber ports (ablk, uint16 conversions exact), two different keys with the same pool index hold disjoint ranges (adisj); over `pool`: MaxSubscribers*portsPerSubscriber fits the range (pmax), 0 <= Subscribers <= MaxSubscribers (pcnt); over the id table: ids are pairwise different and below the counter. Postconditions of AllocateNAT: stable path returns the stored allocation; allocating path adds a key that was absent at the insertion point and leaves every other entry unchanged. Proved: range/size of every block for every configuration satisfying natCfgOK, capacity bookkeeping in AddPublicIP/AllocateNAT, id stability and uniqueness below the wrap. NewManager validates the configuration (fix_5), AddPublicIP rejects duplicate addresses. Failing (genuine, with replays, need a redesign): adisj cannot be preserved by AllocateNAT (block start derived from the subscriber COUNT: release from the middle then allocate overlaps a live block), check-then-act between the RLock'ed existence check and the insertion (a concurrent AllocateNAT for the same address overwrites the entry: the first caller's block is no longer recorded and stays counted).",
 	})
 }
